@@ -87,7 +87,12 @@ class FloCheck(Check):
         d = os.path.join(os.path.dirname(os.path.abspath(__file__)), "directed")
         return [uncanon(json.load(open(os.path.join(d, n + ".json")))) for n in self.directed_files]
 
+    swarm = True          # thorough tier: every second run uses a swarm variation of the check's configuration
+
     def generate(self, S, index, tier):
+        if tier == "thorough" and self.swarm and index % 2 == 1:
+            from flosim.gen import swarm_cfg
+            return gen_program(S.gen, swarm_cfg(S.gen, self.cfg))
         return gen_program(S.gen, self.cfg)
 
     def simplify(self, plan):
